@@ -1702,9 +1702,9 @@ theorem env_decode_int_examples :
 
 /-- the regenerated table: every variable of every field has a decode kind the model knows (no `other`), and the kind agrees
 with the abstract type of the row (list rows are comma-split slices, map rows `k:v` maps, bool rows ParseBool).
-NOT PROVED (round 8 final): `decide` over the 154 string lookups exceeds the default heartbeats; kept as a named statement.
-An `other` kind is still caught at run time: the driver answers `diff model=kind-other` on every `envk` case of such a field. -/
-def table_env_kinds : Prop :=
+Proved by kernel evaluation (`decide +kernel`): the elaborator's `decide` over the 154 string lookups exceeds the default heartbeats.
+An `other` kind is also caught at run time: the driver answers `diff model=kind-other` on every `envk` case of such a field. -/
+theorem table_env_kinds :
     Gen.fields.all (fun f => match Gen.envKinds.lookup f.env, f.ty with
       | some .other, _ => false
       | none, _ => false
@@ -1713,7 +1713,7 @@ def table_env_kinds : Prop :=
       | some k, .bool => k == .bool
       | some k, .dur => k == .str
       | some k, .str => k == .str
-      | some _, _ => true) = true
+      | some _, _ => true) = true := by decide +kernel
 
 end EnvK
 
